@@ -58,6 +58,66 @@ def random_strings(rng, n, maxlen=1024):
     return out
 
 
+# ---------------------------------------------------------------- inputs chosen for their OUTPUT (boundary checksums)
+# For a fixed prefix the CRC is a bijection on the last width/8 bytes, so a trailer can be picked that drives the checksum
+# to any target.  The register is run backwards here ONLY TO PICK INPUTS; what the checksum of the resulting string should
+# be is computed forward by Crc.tla like for every other case (and the harness verifies that the spec's value is the
+# target it aimed at - otherwise the boundary coverage is not there and the run is a machinery failure).
+MODELS = {16: (0x1021, 0xFFFF, 0xFFFF), 64: (0x42F0E1EBA9EA3693, (1 << 64) - 1, (1 << 64) - 1)}      # poly, init, xorout
+
+HALF_LOW = [0xFFFFFFFF, 0xFFFFFFFE, 0xFFFFFC01, 0xFFFFFC00, 0xFFFFFBFF, 0xFFFFF800, 0x80000000, 0x7FFFFFFF, 1, 0]
+HALF_HIGH = [0xFFFFFFFF, 0xFFFFFFFE, 0x80000000, 0x7FFFFFFF, 0x00200000, 0x001FFFFF, 0x003FFFFF, 1, 0]
+TARGETS64 = [(h << 32) | l for h in HALF_HIGH for l in HALF_LOW] + [0xAAAAAAAAAAAAAAAA, 0x5555555555555555,
+             0xAAAAAAAA55555555, 0x55555555AAAAAAAA, 0x0123456789ABCDEF, 0xFFFFFFFF00000000, 0x00000000FFFFFFFF]
+TARGETS16 = [0x0000, 0xFFFF, 0x00FF, 0xFF00, 0x8000, 0x7FFF, 0x0001, 0xFFFE, 0xAAAA, 0x5555]
+
+
+def _register(data, width, reg=None):
+    poly, init, _ = MODELS[width]
+    top, mask = 1 << (width - 1), (1 << width) - 1
+    reg = init if reg is None else reg
+    for b in data:
+        reg ^= b << (width - 8)
+        for _ in range(8):
+            reg = ((reg << 1) ^ poly) & mask if reg & top else (reg << 1) & mask
+    return reg
+
+
+def trailer(prefix, want, width):
+    """width/8 bytes which appended to prefix are meant to give the checksum `want`"""
+    poly, _, xorout = MODELS[width]
+    top = 1 << (width - 1)
+    v = want ^ xorout
+    for _ in range(width):                   # one shift backwards: the polynomial is odd, so bit 0 tells whether it was added
+        v = ((v ^ poly) >> 1) | top if v & 1 else v >> 1
+    return list((v ^ _register(prefix, width)).to_bytes(width // 8, "big"))
+
+
+def boundary_strings(rng, nprefix):
+    """(string, width, target) triples"""
+    prefixes = [[], [0], list(b"123456789"), [rng.randrange(256) for _ in range(40)], [rng.randrange(256) for _ in range(1016)]]
+    while len(prefixes) < nprefix:
+        prefixes.append([rng.randrange(256) for _ in range(rng.choice([2, 3, 7, 8, 15, 64, rng.randint(1, 300)]))])
+    out = []
+    for i, pre in enumerate(prefixes[:nprefix]):
+        t64 = list(TARGETS64)
+        # more values inside the window where a 53 bit float would round the low half up into the high half
+        t64 += [(rng.getrandbits(32) << 32) | rng.randint(0xFFFFFC00, 0xFFFFFFFF) for _ in range(6)]
+        t64 += [((1 << 31 | rng.getrandbits(31)) << 32) | rng.randint(0xFFFFF000, 0xFFFFFFFF) for _ in range(4)]
+        if len(pre) > 300:
+            t64 = t64[::5]                   # long prefixes cost TLC more per string
+        for t in t64:
+            out.append((pre + trailer(pre, t, 64), 64, t))
+        for t in TARGETS16:
+            if len(pre) + 2 > 2:             # strings of at most two bytes are all enumerated anyway
+                out.append((pre + trailer(pre, t, 16), 16, t))
+    return out
+
+
+def plain_strings():
+    return [[v] * n for v in (0x00, 0xFF) for n in range(3, 17)]
+
+
 def _observe16(r):
     """crc16 is documented to return the 16 bit crc as a packed binary string (network order: appended to the message it
     makes a codeword, see Codeword16 in the spec); an integer result is read as the value itself."""
@@ -77,6 +137,10 @@ def run_c41(ctx):
     divmax = ctx.pick(16, 40)
     step = ctx.pick(16, 1)      # quick: the lemmas on every 16th two byte string; the table always holds all of them
     rand = random_strings(rng, nrand)
+    aimed = boundary_strings(rng, ctx.pick(5, 16))
+    plain = plain_strings()
+    nrandom = len(rand)
+    rand = rand + [m for m, _, _ in aimed] + plain            # everything that goes to TLC as JSON
     work = env.subdir("c41")
 
     def shard(k):
@@ -111,6 +175,19 @@ def run_c41(ctx):
         raise tlc.TlcError("vacuous or incomplete CRC model run: grid=%d file=%d rows=%d" % (ngrid, nfile, len(table)))
     if sum(1 for r in table if len(r["m"]) > 2) != len(rand) or max(len(r["m"]) for r in table) < 1024:
         raise tlc.TlcError("random CRC cases did not reach the table")
+
+    # the strings picked for their output: the SPEC's checksum must be the target aimed at, else the boundary coverage is missing
+    spec = {}
+    for r in table:
+        if len(r["m"]) > 2:
+            l = r["c64"]
+            spec[bytes(r["m"])] = (r["c16"], (l[0] << 48) | (l[1] << 32) | (l[2] << 16) | l[3])
+    missed = [(bytes(m).hex()[-24:], w, hex(t)) for m, w, t in aimed if spec.get(bytes(m), (None, None))[0 if w == 16 else 1] != t]
+    if missed or not aimed:
+        raise tlc.TlcError("boundary CRC inputs do not have the checksum they were picked for (harness picking routine wrong?): %r" % missed[:5])
+    window = sum(1 for c16, c64 in spec.values() if c64 >> 63 and (c64 & 0xFFFFFFFF) >= 0xFFFFFC00)
+    if window < 10 or (1 << 64) - 1 not in [c for _, c in spec.values()]:
+        raise tlc.TlcError("no crc64 value with an (almost) all ones low half among the cases")
 
     reported = {"crc16": 0, "crc64": 0}
     nbad = {"crc16": 0, "crc64": 0}
@@ -161,10 +238,13 @@ def run_c41(ctx):
     ctx.add_validated(len(table), table[len(table) // 2] if len(table[len(table) // 2]["m"]) < 40 else table[300])
     ctx.sample({"m": "313233343536373839", "c16": "0xd64e", "c64": "0x62ec59e3f1a4f00a", "note": "catalogue check values, ASSUMEd in the spec"})
     ctx.exhaustive = True
-    ctx.rule = ("all 65793 byte strings of length 0..2 enumerated by TLC (sharded by first byte) plus %d seeded random strings of "
-                "length 3..1024 passed to TLC as JSON; every row of the TLC table replayed against crc16 and crc64 "
-                "(bytes and bytearray arguments for the enumerated strings)" % len(rand))
-    ctx.extra.update({"evaluations": n, "distinct_nontrivial": len(table), "grid_rows": ngrid, "random_strings": nfile,
+    ctx.rule = ("all 65793 byte strings of length 0..2 enumerated by TLC (sharded by first byte) plus, passed to TLC as JSON, %d seeded "
+                "random strings of length 3..1024, %d strings whose trailer was picked so that the checksum is a boundary value "
+                "(halves all ones / zero / 0x7FFFFFFF / 0x80000000 / just below and inside the top 1024 values, alternating "
+                "bits, 53/54 significant bits; crc16 0, FFFF, 00FF, FF00, 8000 ...) after %d prefixes, and ff.. / 00.. of 3..16 "
+                "bytes; every row of the TLC table replayed against crc16 and crc64 (bytes and bytearray arguments for the "
+                "enumerated strings)" % (nrandom, len(aimed), ctx.pick(5, 16)))
+    ctx.extra.update({"evaluations": n, "distinct_nontrivial": len(table), "grid_rows": ngrid, "random_strings": nrandom, "boundary_output_strings": len(aimed), "plain_ff_00_strings": len(plain), "crc64_in_float_rounding_window": window,
                       "longest_string": max(len(r["m"]) for r in table), "tlc_shards": nshards})
     ctx.assume("exhaustive for byte strings of length <= 2 only; longer strings are seeded random samples")
     ctx.assume("crc16's packed result is read in network byte order (the order for which message + checksum is a codeword)")
